@@ -350,6 +350,11 @@ func (o *orC16) onZK(e *ZKEvent) {
 					st = x.Aux
 				}
 			}
+			for _, x := range it.sql {
+				if x.Dst == h && x.Src == it.inc && x.Seq <= e.Seq && !x.Mutating && !x.toldOK() {
+					st = "" // one failing status query voids the whole probe of that host
+				}
+			}
 			return st
 		}
 		// every other HA node still replicating = coordination problem, not a master failure;
